@@ -74,6 +74,10 @@ CHECKS.update({
    text="Four completely enumerated input families (all byte strings of length <= 2 plus 3-symbol JSON strings; structural address x heads shapes and all single/pair field corruptions of a real head; byte-level mutations and truncations of a real message; boundary/overflowing/over-long/truncated frame lengths) fed to three entry points (topic listener, direct-channel monitor, raw stream frames into the real stream adapter) in crash-isolated workers; the process must survive, the victim's contents must be unchanged and a valid announcement sent afterwards must still be merged.",
    note="Trusted: sim environment, in-memory host/stream double for the stream adapter. 'Every byte string' is decided for the stated finite families.",
    tech="exhaustive enumeration of finite malformed-input families against the real decoders and handlers, crash attribution by journalled worker processes"),
+ "C04": dict(cat="exploration", ref="5/C04",
+   text="Exhaustive cross product on fresh worlds: three valid entries (root, chain member with refs, merge entry) x 29 single-field wire mutations x delivery (original claimed hash, recomputed hash, ancestor behind an authorised colluder's head) x route x victim pre-state. Each mutant is classified independently (mis-addressed, signature invalid per the dependency's verifier, foreign log id); classified mutants must never appear in the victim's entry map, listing or heads, and held entries and view must be unchanged.",
+   note="Trusted: sim environment (content-addressed blocks), go-ipfs-log's entry.Verify as the definition of signature validity. Identity-block mutations are recorded here and judged by C03.",
+   tech="exhaustive enumeration of a finite mutation family against the real implementation with an independent classifier as oracle"),
 })
 NOT_APPLICABLE = []
 ALL = ["C%02d" % i for i in range(1, 21)]
